@@ -62,7 +62,7 @@ def parse_step(lines):
             ev.append((t,))
         elif t == 'LOC':
             ev.append(('LOC', int(f[1]), int(f[2])))
-        elif t in ('SPM', 'EPM', 'SER', 'EER', 'DT', 'DE', 'DN', 'DIS', 'ELD', 'ATD', 'IED', 'XED', 'SKE', 'GRAMMAR', 'ADOPTED', 'NODE', 'LK'):
+        elif t in ('SPM', 'EPM', 'SER', 'EER', 'DT', 'DE', 'DN', 'DIS', 'ELD', 'ATD', 'IED', 'XED', 'SKE', 'GRAMMAR', 'ADOPTED', 'NODE', 'LK', 'GP', 'GPN'):
             ev.append(tuple([t] + [unesc(x) for x in f[1:]]))
         elif t == 'ERR':
             st.errs.append((f[1], f[2], int(f[3]), int(f[4]), int(f[5]), unesc(f[6]) if len(f) > 6 else None))
@@ -79,6 +79,8 @@ def parse_step(lines):
             st.res.append(tuple(unesc(x) for x in f[1:]))
         elif t == 'SRV':
             st.srv.append(unesc(f[1]))
+        elif t == 'JOIN':
+            pass        # driver-side note about how a relative id was joined before serving it
         elif t == 'PSTEPS':
             st.psteps = int(f[1])
         else:
